@@ -2,6 +2,7 @@ SPECIFICATION TSpec
 CONSTANTS
   Progs = {}
   MaxV = 12
+  CopyThrows = {0}
   CopyUnderMutex = TRUE
   CancelUnlocks = TRUE
 INVARIANTS SnapshotValid NoTornSnapshot WriterSerial NoLostCommit RefsOK
